@@ -48,6 +48,7 @@ def run(repo, rep, tier):
     _prepare(repo, rep)
     _choice(repo, rep)
     _emission(repo, rep)
+    _default_paths(repo, rep)
     _defaults(repo, rep)
 
 
@@ -547,6 +548,49 @@ def _emission(repo, rep):
     rep.check(okn, "R07.4", da.qualname, "a dict entry is written only if "
               "its value is not None and no later source names it",
               construct="dict-guard", where=L.where(da))
+
+
+def _default_paths(repo, rep):
+    """'default' keeps the static text exactly as written: in the
+    convert-and-escape routine the marker path returns the default
+    untouched (no conversion, no escaping)."""
+    from .c02 import quote_function
+    fn, frag = quote_function(repo)
+    params = [a.arg for a in fn.args.args]
+    site = COMP + "emit_func_convert_and_escape(__quote)"
+    if len(params) < 5:
+        raise AnalysisError("__quote: unexpected parameters %s" % params)
+    tgt, dflt, marker = params[0], params[3], params[4]
+    paths = P.enum_paths(fn.body)
+    n = 0
+    ok = True
+    detail = ""
+    for p in paths:
+        took = [e for e in p if e[0] == "cond" and
+                src(e[1]).replace(" ", "") == "%sis%s" % (tgt, marker)
+                and e[2]]
+        if not took:
+            continue
+        n += 1
+        last = p[-1]
+        direct = last[0] == "return" and last[1] is not None and \
+            src(last[1]) == dflt
+        touched = [e for e in p if e[0] in ("assign", "sanitize")
+                   and (e[1] == dflt or (e[0] == "assign" and e[1] == tgt
+                                         and dflt in src(e[2])))]
+        if not direct or touched:
+            ok = False
+            detail = P.path_text(p, 14)
+    rep.check(ok and n >= 1, "R07.4", site, "a value that is the default "
+              "marker yields the static default exactly as written (returned "
+              "untouched, not converted or escaped again)",
+              construct="default-untouched", detail=detail or
+              ("no path tests '%s is %s'" % (tgt, marker) if n == 0 else ""))
+    # None before marker: None is nothing even if the marker were None
+    first = fn.body[0]
+    rep.check(isinstance(first, ast.If) and src(first.test) ==
+              "%s is None" % tgt, "R07.4", site, "None is tested first "
+              "(None drops the attribute)", construct="none-first")
 
 
 def _defaults(repo, rep):
